@@ -188,6 +188,50 @@ Example C06_example :
   do_route t [[50]; [49]] (PIQ (a s_result) (Some nsx) None) = ([EDeliver (a s_result)], [[50]]).
 Proof. vm_compute. repeat split. Qed.
 
+(* Routes registered while the router is in use (from inside a handler, or from another goroutine
+   between / during dispatches): for EVERY interleaving [h] of route registrations and dispatches
+   starting from any table, every packet is dispatched exactly once (one outcome per packet, in
+   order), on the table as it is when its dispatch begins: the handler of the first accepting route
+   of that table and nothing else, or - no route accepting - exactly one feature-not-implemented
+   reply for an IQ get/set and nothing for any other packet. *)
+Theorem C06_history : forall (t : table) (h : list hop),
+  length (run_hist t h) = length (hist_packets h) /\
+  map snd (dispatches t h) = hist_packets h /\
+  Forall2 (fun tp ev =>
+      (exists i, router_match (fst tp) (snd tp) = Some i /\ ev = [EHandle i]) \/
+      (router_match (fst tp) (snd tp) = None /\
+       exists a ns any, snd tp = PIQ a ns any /\ is_request (a_type a) = true /\
+                        ev = [ESend (err_reply a)]) \/
+      (router_match (fst tp) (snd tp) = None /\ ev = [] /\
+       forall a ns any, snd tp = PIQ a ns any -> is_request (a_type a) = false))
+    (dispatches t h) (run_hist t h).
+Proof.
+  intros t h. destruct (hist_one_outcome t h) as [Hl Hf].
+  repeat split; [exact Hl | apply dispatches_packets | exact Hf].
+Qed.
+
+(* Registering routes never changes who handles a packet some route already accepts (order of
+   registration is the precedence), and a packet no route accepted goes to the first accepting
+   one among the new routes. *)
+Theorem C06_growth_keeps_precedence : forall (t t' : table) (p : pkt) (i : nat),
+  router_match t p = Some i -> router_match (t ++ t') p = Some i.
+Proof. exact router_match_app_some. Qed.
+
+Theorem C06_growth_new_routes_last : forall (t t' : table) (p : pkt),
+  router_match t p = None ->
+  router_match (t ++ t') p =
+  match router_match t' p with Some j => Some (length t + j)%nat | None => None end.
+Proof. exact router_match_app_none. Qed.
+
+Example C06_history_example :
+  let a ty := {| a_type := ty; a_id := [49]; a_from := [97]; a_to := [98] |} in
+  let q := PIQ (a s_get) None None in
+  run_hist [[b_packet s_message]]
+    [HDispatch q []; HDispatch (PMessage (a [])) [[b_packet s_iq]]; HDispatch q [];
+     HAdd []; HDispatch (PPresence (a [])) []; HDispatch q []]
+  = [[ESend (err_reply (a s_get))]; [EHandle 0%nat]; [EHandle 1%nat]; [EHandle 2%nat]; [EHandle 1%nat]].
+Proof. vm_compute. reflexivity. Qed.
+
 Print Assumptions C06_first_match.
 Print Assumptions C06_first_match_complete.
 Print Assumptions C06_at_most_one_handler.
@@ -203,3 +247,6 @@ Print Assumptions C06_pending.
 Print Assumptions C06_ended_request_routed.
 Print Assumptions C06_live_request_first.
 Print Assumptions C06_request_never_a_response.
+Print Assumptions C06_history.
+Print Assumptions C06_growth_keeps_precedence.
+Print Assumptions C06_growth_new_routes_last.
